@@ -2,7 +2,11 @@
 
 package local
 
-import "github.com/hashicorp/consul/agent/structs"
+import (
+	"time"
+
+	"github.com/hashicorp/consul/agent/structs"
+)
 
 // VerifSvc / VerifChk expose one raw record of the agent's local state (including
 // entries marked Deleted and the definition-less placeholders that updateSyncState
@@ -37,4 +41,37 @@ func (l *State) VerifDump() (nodeInfoInSync bool, svcs []VerifSvc, chks []VerifC
 		chks = append(chks, VerifChk{ID: string(id.ID), Chk: c.Check, Token: c.Token, InSync: c.InSync, Deleted: c.Deleted, IsLocal: c.IsLocallyDefined, Defer: c.DeferCheck != nil})
 	}
 	return l.nodeInfoInSync, svcs, chks
+}
+
+// VerifDeferProbe reports whether the deferred-output timer of a check is armed (non-nil) and
+// whether it is a running timer. Probing stops the timer; a running one is re-armed with `rearm`.
+func (l *State) VerifDeferProbe(id structs.CheckID, rearm time.Duration) (armed, running bool) {
+	l.Lock()
+	defer l.Unlock()
+	c := l.checks[id]
+	if c == nil || c.DeferCheck == nil {
+		return false, false
+	}
+	if c.DeferCheck.Stop() {
+		c.DeferCheck.Reset(rearm)
+		return true, true
+	}
+	return true, false
+}
+
+// VerifDeferFire makes the (running) deferred-output timer of a check expire now, so that the
+// real time.AfterFunc body of UpdateCheck runs. A stopped timer is left alone.
+func (l *State) VerifDeferFire(id structs.CheckID) (armed, running bool) {
+	return l.VerifDeferProbe(id, 0)
+}
+
+// VerifStopAllDefer stops every pending timer (end of a harness case).
+func (l *State) VerifStopAllDefer() {
+	l.Lock()
+	defer l.Unlock()
+	for _, c := range l.checks {
+		if c.DeferCheck != nil {
+			c.DeferCheck.Stop()
+		}
+	}
 }
